@@ -193,6 +193,10 @@ func DerivesFrom(v ssa.Value, src func(ssa.Value) bool) bool {
 					}
 				}
 			}
+		case *ssa.Call:
+			if b, ok := x.Call.Value.(*ssa.Builtin); ok && (b.Name() == "len" || b.Name() == "cap") && len(x.Call.Args) == 1 {
+				return walk(x.Call.Args[0])
+			}
 		case *ssa.Alloc:
 			for _, st := range storesTo(x) {
 				if walk(st) {
@@ -324,6 +328,17 @@ func newReachCtx(fn *ssa.Function) *reachCtx {
 	for _, a := range CondAtoms(fn) {
 		if v, _, _, ok := constCompare(a); ok {
 			if phi, isPhi := v.(*ssa.Phi); isPhi {
+				ctx.tracked[phi] = true
+			}
+		}
+	}
+	for _, b := range fn.Blocks {
+		if len(b.Instrs) == 0 {
+			continue
+		}
+		if ifi, ok := b.Instrs[len(b.Instrs)-1].(*ssa.If); ok {
+			a, _ := normCond(ifi.Cond)
+			if phi, isPhi := a.(*ssa.Phi); isPhi {
 				ctx.tracked[phi] = true
 			}
 		}
@@ -466,7 +481,59 @@ func ForwardReach(from *ssa.BasicBlock, assign map[ssa.Value]bool, stop func(*ss
 		if len(b.Instrs) > 0 {
 			if ifi, ok := b.Instrs[len(b.Instrs)-1].(*ssa.If); ok && len(b.Succs) == 2 && b.Succs[0] != b.Succs[1] {
 				atom, neg = normCond(ifi.Cond)
+				// a boolean phi is resolved to the value that flowed into it on this path
+				for i := 0; i < 4; i++ {
+					phi, isPhi := atom.(*ssa.Phi)
+					if !isPhi {
+						break
+					}
+					r := st.env.resolve(phi)
+					if r == ssa.Value(phi) {
+						break
+					}
+					a2, n2 := normCond(r)
+					atom, neg = a2, neg != n2
+				}
 			}
+		}
+		if k, isK := atom.(*ssa.Const); isK && k.Value != nil && k.Value.Kind() == constant.Bool {
+			// decided by a constant that flowed into the phi
+			take := constant.BoolVal(k.Value) != neg
+			forced := 1
+			if take {
+				forced = 0
+			}
+			s := b.Succs[forced]
+			atom = nil
+			if !backEdge(b, s) {
+				env := st.env
+				cloned := false
+				for _, in := range s.Instrs {
+					phi, ok := in.(*ssa.Phi)
+					if !ok {
+						break
+					}
+					if !ctx.tracked[phi] {
+						continue
+					}
+					for i, p := range s.Preds {
+						if p == b {
+							if !cloned {
+								env = st.env.clone()
+								cloned = true
+							}
+							env.phi[phi] = env.resolve(phi.Edges[i])
+						}
+					}
+				}
+				k := fmt.Sprintf("%d|%s", s.Index, env.key())
+				if !seenState[k] {
+					seenState[k] = true
+					seen[s] = true
+					work = append(work, state{s, env})
+				}
+			}
+			continue
 		}
 		for si, s := range b.Succs {
 			if backEdge(b, s) {
@@ -567,14 +634,32 @@ func CondAtoms(fn *ssa.Function) []ssa.Value {
 			continue
 		}
 		if ifi, ok := b.Instrs[len(b.Instrs)-1].(*ssa.If); ok {
-			a, _ := normCond(ifi.Cond)
-			if !seen[a] {
-				seen[a] = true
-				out = append(out, a)
+			for _, a := range expandBoolPhi(ifi.Cond, 0) {
+				if !seen[a] {
+					seen[a] = true
+					out = append(out, a)
+				}
 			}
 		}
 	}
 	return out
+}
+
+// expandBoolPhi: an If on a boolean phi (x := a && b materialised as a value) is decided by the
+// non-constant values flowing into the phi: those are the atoms.
+func expandBoolPhi(c ssa.Value, depth int) []ssa.Value {
+	a, _ := normCond(c)
+	if phi, ok := a.(*ssa.Phi); ok && depth < 4 {
+		var out []ssa.Value
+		for _, e := range phi.Edges {
+			if _, isK := e.(*ssa.Const); isK {
+				continue
+			}
+			out = append(out, expandBoolPhi(e, depth+1)...)
+		}
+		return out
+	}
+	return []ssa.Value{a}
 }
 
 // MustPassThrough decides whether every forward path from the entry of fn to an
@@ -800,13 +885,14 @@ func CondAtomsReaching(fn *ssa.Function, site *ssa.BasicBlock) []ssa.Value {
 		if !ok {
 			continue
 		}
-		a, _ := normCond(ifi.Cond)
-		if seen[a] {
+		if !(b == site || ForwardReach(b, nil, nil)[site]) {
 			continue
 		}
-		if b == site || ForwardReach(b, nil, nil)[site] {
-			seen[a] = true
-			out = append(out, a)
+		for _, a := range expandBoolPhi(ifi.Cond, 0) {
+			if !seen[a] {
+				seen[a] = true
+				out = append(out, a)
+			}
 		}
 	}
 	return out
